@@ -658,6 +658,10 @@ class Engine:
             t = type(v)
             if t is int or t is bool or t is Ref or t is float:
                 return v
+            if t is BoxV:
+                # Box is not Copy: MIR only `copy`s a Box to take its pointer out (`no_retag copy (*_b)` followed by a
+                # transmute of `.0.0`), which must alias the same allocation
+                return v
             return copy_value(v)
         if k == 'move':
             p = op[1]
